@@ -175,10 +175,13 @@
        parameter); that forgetting leaks (and never double-drops) is
        IterSpec.drain_forgotten, listed under C10;
      - on a PANIC the conservation triple allows a leak (`lost`): "destroyed
-       exactly once" is then "at most once"; arguments of a call that panics
-       (rejected insert on a full map) are owned by the unwinding caller frame
-       and are not part of the model's log - the harness's leak oracle checks
-       them;
+       exactly once" is then "at most once".  The by-value arguments of a call
+       that panics (rejected insert on a full map) ARE in the model: the locals
+       a frame owns are destroyed when a panic unwinds through it, they are
+       part of `ins` and end up in dropped (log w'); that a rejection loses
+       nothing at all (lost = []) is stated exactly in Props/C03.v
+       (C03_insert_ii_strong, C03_insert_panic_cases and the panic clauses of
+       the C03_*_lawful theorems), not by the `conserves` triple;
      - that lost = [] needs Tidy (no stale element beyond len), which holds in
        all states reachable from new_map (new_map is Tidy and every conserving
        call preserves Tidy on normal return; after a panic Tidy may be lost,
